@@ -48,6 +48,7 @@ type c06From struct {
 	joins []qJoin
 	ids   []string // table ids (alias or name) in order
 	names []string
+	dup   bool // two tables of the chain carry the same id: only the rejection of unqualified shared names is checked
 }
 
 func runC06(env *lib.Env, rep *lib.Report) {
@@ -137,6 +138,27 @@ func runC06(env *lib.Env, rep *lib.Report) {
 			}
 		}
 	}
+	// chains in which two tables carry the same id (an unaliased self-join, two tables under one alias, a chain
+	// whose first and third tables are the same unaliased table): an unqualified name that both have is still
+	// ambiguous, in the select list and in ON
+	one1 := &qCond{atoms: []qAtom{{ql(int64(1)), ql(int64(1)), "="}}}
+	kIs1 := &qCond{atoms: []qAtom{{qc("", "k"), ql(int64(1)), "="}}}
+	nDup := 0
+	for _, k1 := range kinds {
+		for _, pair := range [][2]tchoice{{{"t", ""}, {"t", ""}}, {{"t", "x"}, {"u", "x"}}, {{"t", "x"}, {"t", "x"}}, {{"u", "t"}, {"t", ""}}} {
+			for _, on := range []*qCond{one1, kIs1} {
+				froms = append(froms, c06From{dup: true, joins: []qJoin{{table: pair[0].table, alias: pair[0].alias}, {kind: k1, table: pair[1].table, alias: pair[1].alias, on: on}},
+					ids: []string{id(pair[0]), id(pair[1])}, names: []string{pair[0].table, pair[1].table}})
+				nDup++
+			}
+		}
+		for _, on := range []*qCond{one1, kIs1} {
+			froms = append(froms, c06From{dup: true, joins: []qJoin{{table: "t"}, {kind: k1, table: "u", on: &qCond{atoms: []qAtom{{qc("t", "k"), qc("u", "k"), "="}}}}, {kind: k1, table: "t", on: on}},
+				ids: []string{"t", "u", "t"}, names: []string{"t", "u", "t"}})
+			nDup++
+		}
+	}
+	rep.Bounds["FROM clauses with a repeated table id"] = fmt.Sprintf("%d (unaliased self-join, two tables under one alias, the same table twice under one alias, an alias equal to another table's name, t JOIN u JOIN t; ON 1 = 1 and ON k = 1): SELECT k and ON k = 1 must be rejected", nDup)
 	rep.Bounds["FROM clauses"] = fmt.Sprintf("%d join chains (1..2 joins; INNER JOIN / JOIN / LEFT JOIN / RIGHT JOIN; self-joins under aliases; 11 ON conditions incl. an ambiguous unqualified name behind AND / OR, AND/OR, mixed AND/OR of three atoms and constants)", len(froms))
 	cT, cU, cV := c06Contents("t"), c06Contents("u"), c06Contents("v")
 	rep.Bounds["table contents"] = fmt.Sprintf("%d x %d x %d: all multisets of <= 2 rows over keys {1,2} per table (empty sides, duplicate keys)", len(cT), len(cU), len(cV))
@@ -157,6 +179,12 @@ func runC06(env *lib.Env, rep *lib.Report) {
 					defer qw.w.destroy()
 					for _, f := range froms {
 						base := qQuery{from: f.joins, limit: -1, offset: -1}
+						if f.dup {
+							q := base
+							q.items = []qItem{{kind: "col", col: qRef{"", "k"}}}
+							r.check(qw, &q, "join/ambiguous-repeated-id", "")
+							continue
+						}
 						q := base
 						q.items = []qItem{{kind: "star"}}
 						r.check(qw, &q, "join/*", "")
